@@ -14,7 +14,7 @@ from checks import common as c
 from checks import topogen as tg
 
 CHAINS = ['F80', 'F200', 'F460', 'F1000', 'F80_F60', 'F40_U_F30', 'U_F60', 'F80_E_F70', 'Efull_F100_Efull', 'Etype_F100_Egain',
-          'Evoa_F90_Edp', 'F200att', 'F100lumped', 'F80perfreq', 'R80_E', 'F80_R80', 'F0.05', 'Evoa_F100', 'Evoa_F70_F70']
+          'Evoa_F90_Edp', 'F200att', 'F100lumped', 'F80perfreq', 'R80_E', 'F80_R80', 'F0.05', 'Evoa_F100', 'Evoa_F70_F70', 'F200pmd']
 SIMS = {
     'default': {},
     'raman_p2': {'raman_params': {'flag': True, 'method': 'perturbative', 'order': 2, 'result_spatial_resolution': 10e3,
@@ -39,6 +39,8 @@ SPACE = dict({'graph': ['P2', 'P3', 'TRI'], 'chain': CHAINS, 'chain_rev': ['F80'
 def chain(kind):
     if kind == 'F1000':
         return [c.fiber(1000)]
+    if kind == 'F200pmd':       # a fibre that auto-design splits, with its own PMD coefficient
+        return [c.fiber(200, pmd_coef=4.0e-15)]
     return tg.chain(kind)
 
 
@@ -116,7 +118,8 @@ def receiver_figures(net, equipment, sim):
             continue
         rx = pth[-1]
         out[(path[0].uid, path[-1].uid)] = (np.array(rx.snr_01nm), np.array(rx.osnr_ase_01nm), np.array(rx.osnr_nli),
-                                            [e.uid for e in pth])
+                                            [e.uid for e in pth], np.array(rx.pmd), np.array(rx.pdl),
+                                            np.array(rx.chromatic_dispersion), np.array(rx.latency))
     return out
 
 
@@ -130,8 +133,20 @@ HASH_INPUTS = [
     {'eq': 'multiband', 'bands': 'CLn', 'graph': 'P2', 'chain': 'F80', 'drop_ter': True},
     {'eq': 'multiband', 'bands': 'CLn', 'graph': 'P3', 'chain': 'F80_F60'},
     {'eq': 'example', 'graph': 'TRI', 'chain': 'F200', 'max_length': 90},
+    {'eq': 'example', 'graph': 'P3', 'chain': 'F120', 'chain_rev': 'F200'},
+    {'eq': 'test', 'graph': 'TRI', 'chain': 'F100_F100_F100'},
     {'eq': 'test', 'graph': 'P3', 'chain': 'F80_E_F70', 'mode': 'gain'},
 ]
+
+
+def other_library(eq):
+    """the same library with other noise data under the same model names"""
+    eq = copy.deepcopy(eq)
+    for e in eq['Edfa']:
+        if 'nf_min' in e and 'nf_max' in e:
+            shift = 2.5 if len(e['type_variety']) % 2 else -1.0
+            e['nf_min'], e['nf_max'] = e['nf_min'] + shift, e['nf_max'] + shift
+    return eq
 
 
 def digest_cli(arg):
@@ -140,6 +155,13 @@ def digest_cli(arg):
     from gnpy.tools.json_io import network_to_json
     case = json.loads(arg)
     try:
+        if case.get('pollute'):
+            # this process first designs the same topology against another library that uses the same model names
+            other = other_library(tg.library(case))
+            try:
+                c.design(tg.topology(case), other)
+            except Exception:  # noqa
+                pass
         net, equipment, _, _ = c.design(tg.topology(case), tg.library(case))
         doc = canon_export(network_to_json(net))
         text = json.dumps(doc, sort_keys=True)
@@ -166,6 +188,18 @@ def run_hashseed(case):
                     'transitions': 0}
         outs[hs] = json.loads(line[7:])
     ref = outs[case['hashseeds'][0]]
+    # and once in a process that has designed against another library (same model names, other noise data) before
+    env = dict(os.environ, PYTHONHASHSEED=str(case['hashseeds'][0]))
+    r = subprocess.run([sys.executable, '-c', 'import sys; from checks import c17; c17.digest_cli(sys.argv[1])',
+                        json.dumps(dict(case['input'], pollute=True))], env=env, capture_output=True, text=True, timeout=300)
+    line = next((x for x in r.stdout.splitlines() if x.startswith('DIGEST ')), None)
+    if line is not None:
+        o = json.loads(line[7:])
+        if o['sha'] != ref['sha']:
+            diff = [(a, b) for a, b in zip(ref['models'], o['models']) if a != b][:2]
+            viol.append(dict(fingerprint='design-depends-on-earlier-design-in-the-process', case=case,
+                             what=f'input {case["input"]}: designed after a design against another library (same model names, '
+                                  f'other noise figures) the export differs from the design in a fresh process: {diff}'))
     for hs, o in outs.items():
         if o['sha'] != ref['sha']:
             diff = [(a, b) for a, b in zip(ref['models'], o['models']) if a != b][:2]
@@ -208,7 +242,13 @@ def run_case(case):
         after = sim_json()
         if after != before:
             v('simparams-changed-by-design', f'simulation parameters before design {before} after {after}')
-        # same input twice
+        # same input twice, with a design of the same topology against another library (same model names, other noise data)
+        # in between: what was designed before must not matter
+        eq_other = other_library(eq)
+        try:
+            design_doc(topo, eq_other, sim)
+        except Exception:  # noqa  (only the effect on the next design matters)
+            pass
         net0b, _, doc0b = design_doc(topo, eq, sim)
         transitions += 1
         d = diff_json(canon_export(doc0), canon_export(doc0b), tol=0.0)
@@ -269,6 +309,11 @@ def run_case(case):
                         if not np.allclose(val[i], other[i], rtol=0, atol=1e-4):
                             v('propagation-differs-after-reload', f'path {k}: {nm} {val[i][:2].tolist()} on the design vs '
                               f'{other[i][:2].tolist()} on the reloaded design')
+                            break
+                    for i, nm in ((4, 'PMD'), (5, 'PDL'), (6, 'CD'), (7, 'latency')):
+                        if not np.allclose(val[i], other[i], rtol=1e-6, atol=0):
+                            v('propagation-differs-after-reload:' + nm, f'path {k}: accumulated {nm} {val[i][:2].tolist()} on the '
+                              f'design vs {other[i][:2].tolist()} on the reloaded design')
                             break
                 transitions += len(fig0)
             prev = docr
